@@ -2113,8 +2113,8 @@ Section Cycle.
     apply negb_true_iff in H. destruct (pr_cell pr mdt c); [discriminate | discriminate].
   Qed.
 
-  Lemma cell_ok_convert c : cell_ok pr mdt c = true ->
-    convert_item [c_0] mdt (Some (pr_cell pr mdt c)) = Ok (reparse pr mdt c) /\ cell_eqb (reparse pr mdt c) c = true.
+  Lemma cell_ok_convert ns c : cell_ok pr mdt c = true ->
+    convert_item ns mdt (Some (pr_cell pr mdt c)) = Ok (reparse pr mdt c) /\ cell_eqb (reparse pr mdt c) c = true.
   Proof.
     unfold cell_ok, reparse. intro H. apply andb_true_iff in H. destruct H as [H Hc]. apply andb_true_iff in H. destruct H as [H Hdot].
     apply andb_true_iff in H. destruct H as [H Hlen]. apply andb_true_iff in H. destruct H as [Hne Htok].
@@ -2134,9 +2134,9 @@ Section Cycle.
   Qed.
 
   (* convert_row on the cells of a printed row *)
-  Lemma convert_row_cycle : forall hdr (r : list cell),
+  Lemma convert_row_cycle ns : forall hdr (r : list cell),
     length r = length hdr -> forallb (cell_ok pr mdt) r = true ->
-    convert_row [c_0] mdt (map (fun nd : str * bool => parse_col (fst nd) (snd nd)) (combine hdr (map (fun _ => false) hdr)))
+    convert_row ns mdt (map (fun nd : str * bool => parse_col (fst nd) (snd nd)) (combine hdr (map (fun _ => false) hdr)))
                 (map Some (map (pr_cell pr mdt) r)) =
     Ok (map (fun nc => icell_of (fst nc) (snd nc)) (combine hdr r)).
   Proof.
@@ -2145,7 +2145,7 @@ Section Cycle.
     - destruct r as [|c r]; [discriminate|]. cbn [forallb] in Hok. apply andb_true_iff in Hok. destruct Hok as [Hc Hr].
       cbn [map combine convert_row fst snd]. rewrite (IH r ltac:(cbn in Hl; lia) Hr).
       destruct (parse_col nm false) eqn:Ep.
-      + rewrite (proj1 (cell_ok_convert c Hc)). cbn [bind]. f_equal. f_equal. unfold icell_of. rewrite Ep. reflexivity.
+      + rewrite (proj1 (cell_ok_convert ns c Hc)). cbn [bind]. f_equal. f_equal. unfold icell_of. rewrite Ep. reflexivity.
       + cbn [bind]. f_equal. f_equal. unfold icell_of. rewrite Ep. reflexivity.
   Qed.
 
@@ -2191,6 +2191,7 @@ Qed.
 Section CycleCol.
   Variable pr : Q -> str.
   Variable mdt : str.
+  Variable ns : str.
   Variable lbl : option str.
   Hypothesis Hlbl : forall nm, is_label lbl nm = true -> nm = s_ID \/ nm = s_L1.
 
@@ -2203,7 +2204,7 @@ Section CycleCol.
     mems nm date_names = false ->
     let col := mkCol nm false (map (icell_of pr mdt nm) cells) in
     ids_step lbl col = col /\ id_check lbl col = Ok tt /\
-    finish_col (time_step [c_0] mdt false col) = Ok (nm, map (fin_cell nm) cells) /\
+    finish_col (time_step ns mdt false col) = Ok (nm, map (fin_cell nm) cells) /\
     cells_same (map (fin_cell nm) cells) cells = true.
   Proof.
     intros Hok Hcol Hdate col. unfold col_ok in Hcol. apply andb_true_iff in Hcol. destruct Hcol as [Hid Hint].
@@ -2226,14 +2227,14 @@ Section CycleCol.
       rewrite forallb_forall in Hnum. specialize (Hnum (reparse pr mdt c) (in_map _ _ _ Hc)).
       destruct (reparse pr mdt c); [reflexivity | discriminate | discriminate].
     - (* time_step, finish *)
-      assert (time_step [c_0] mdt false col = mkCol nm false (map (fun c => IVal (reparse pr mdt c)) cells)) as ->.
+      assert (time_step ns mdt false col = mkCol nm false (map (fun c => IVal (reparse pr mdt c)) cells)) as ->.
       { unfold time_step, col. cbn [col_name col_drop col_cells negb andb]. rewrite andb_true_r.
         destruct (str_eqb nm s_TIME) eqn:Et.
         - cbn [andb]. apply str_eqb_eq in Et. subst nm. rewrite mapM_map.
           rewrite (mapM_map_ok _ (reparse pr mdt)).
           + rewrite map_map. reflexivity.
           + intros c Hc. unfold icell_of. assert (parse_col s_TIME false = false) as -> by reflexivity.
-            apply (proj1 (cell_ok_convert pr mdt c (Hok c Hc))).
+            apply (proj1 (cell_ok_convert pr mdt ns c (Hok c Hc))).
         - cbn [andb]. f_equal. apply map_ext. intro c. unfold icell_of.
           assert (parse_col nm false = true) as ->; [|reflexivity].
           unfold parse_col. cbn [negb andb mems existsb]. rewrite Et. cbn [orb]. unfold mems in Hdate. rewrite Hdate. reflexivity. }
@@ -2247,7 +2248,7 @@ Section CycleCol.
       assert (a = fin_cell nm b) as ->.
       { clear -Hab. induction cells as [|c l IH]; [destruct Hab|]. cbn in Hab. destruct Hab as [E|Hab]; [inversion E; reflexivity | apply IH; exact Hab]. }
       assert (In b cells) as Hb by (apply in_combine_r in Hab; exact Hab).
-      pose proof (proj2 (cell_ok_convert pr mdt b (Hok b Hb))) as Hrb. unfold fin_cell.
+      pose proof (proj2 (cell_ok_convert pr mdt ns b (Hok b Hb))) as Hrb. unfold fin_cell.
       destruct (mems nm int32_names) eqn:Ei; [|exact Hrb].
       cbn [negb orb] in Hint. rewrite forallb_forall in Hint. specialize (Hint (reparse pr mdt b) (in_map _ _ _ Hb)).
       destruct (reparse pr mdt b) as [q| |x]; [|discriminate|discriminate]. cbn [to_int32].
@@ -2275,6 +2276,7 @@ Qed.
 Section CycleMain.
   Variable pr : Q -> str.
   Variable mdt : str.
+  Variable ns : str.
 
   Lemma cols_forall2 lbl :
     (forall nm, is_label lbl nm = true -> nm = s_ID \/ nm = s_L1) ->
@@ -2283,7 +2285,7 @@ Section CycleMain.
     cols_ok pr lbl mdt hdr rows = true ->
     (forall nm, In nm hdr -> mems nm date_names = false) ->
     exists outs,
-      Forall2 (fun c o => ids_step lbl c = c /\ id_check lbl c = Ok tt /\ finish_col (time_step [c_0] mdt false c) = Ok o)
+      Forall2 (fun c o => ids_step lbl c = c /\ id_check lbl c = Ok tt /\ finish_col (time_step ns mdt false c) = Ok o)
               (map (fun nmcells => mkCol (fst nmcells) false (map (icell_of pr mdt (fst nmcells)) (snd nmcells)))
                    (combine hdr (transpose (length hdr) rows))) outs /\
       map fst outs = hdr /\ list_eqb (cells_same) (map snd outs) (transpose (length hdr) rows) = true.
@@ -2301,19 +2303,20 @@ Section CycleMain.
         destruct (Hrows r Hr) as [Hl Hk]. destruct r as [|c r]; [discriminate|]. cbn in Hk |- *. apply andb_true_iff in Hk. tauto. }
       assert (map (fun r => reparse pr mdt (hd CNaN r)) rows = map (reparse pr mdt) cells) as Hmm by (unfold cells; rewrite map_map; reflexivity).
       rewrite Hmm in Hc.
-      destruct (column_cycle pr mdt lbl Hlbl nm cells Hcells Hc (Hdates nm (or_introl eq_refl))) as [C1 [C2 [C3 C4]]].
+      destruct (column_cycle pr mdt ns lbl Hlbl nm cells Hcells Hc (Hdates nm (or_introl eq_refl))) as [C1 [C2 [C3 C4]]].
       exists ((nm, map (fin_cell pr mdt nm) cells) :: outs). cbn [length transpose combine map fst snd]. fold cells. repeat split.
       + constructor; [repeat split; assumption | exact F].
       + rewrite Hn. reflexivity.
       + cbn [list_eqb]. rewrite C4, Hs. reflexivity.
   Qed.
 
-  Lemma write_read_cycle_opts opts syn hdr rows :
+  Lemma write_read_cycle_full opts syn ignc nullc hdr rows :
     column_info opts = Ok (mkCols hdr (map (fun _ => false) hdr) syn) ->
+    ign_char ignc = hdr_ignchar hdr -> null_string nullc = Ok ns ->
     cycle_guard pr mdt hdr rows = true ->
-    exists t, read_model (cycle_input_opts pr opts mdt hdr rows) = Ok t /\ table_same t hdr rows = true.
+    exists t, read_model (cycle_input_full pr opts ignc nullc mdt hdr rows) = Ok t /\ table_same t hdr rows = true.
   Proof.
-    intro Hci. unfold cycle_guard. intro G.
+    intros Hci Hign Hnull. unfold cycle_guard. intro G.
     apply andb_true_iff in G. destruct G as [G Gcols]. apply andb_true_iff in G. destruct G as [G Grows].
     apply andb_true_iff in G. destruct G as [G Gne]. apply andb_true_iff in G. destruct G as [G Ghdrc].
     apply andb_true_iff in G. destruct G as [G Gdate]. apply andb_true_iff in G. destruct G as [G Gnames].
@@ -2338,9 +2341,9 @@ Section CycleMain.
       - intros x Hx. apply in_map_iff in Hx. destruct Hx as [c [<- Hc]]. rewrite forallb_forall in Hk. apply (cell_ok_tok pr mdt c (Hk c Hc)). }
     set (rowlines := map (fun r => join_comma (map (pr_cell pr mdt) r)) rows).
     (* the text *)
-    unfold read_model, cycle_input_opts. cbn [i_options i_null i_ignchar i_text i_ignore i_accept i_mdt].
-    rewrite Hci. cbn [bind ci_names ci_drop ci_syn null_string]. rewrite kept_names_all. rewrite Gnodup. cbn [negb].
-    change (ign_char (Some [hdr_ignchar hdr])) with ic.
+    unfold read_model, cycle_input_full. cbn [i_options i_null i_ignchar i_text i_ignore i_accept i_mdt].
+    rewrite Hci. cbn [bind ci_names ci_drop ci_syn]. rewrite Hnull. cbn [bind]. rewrite kept_names_all. rewrite Gnodup. cbn [negb].
+    rewrite Hign.
     assert (prefilter ic (csv_text pr mdt hdr rows) = Ok (rowlines, [])) as ->.
     { unfold prefilter. rewrite Gre. unfold csv_text, csv_lines. fold rowlines.
       rewrite lines_tail_flat.
@@ -2367,7 +2370,7 @@ Section CycleMain.
       - unfold rowlines. rewrite map_map. apply map_ext_in. intros r Hr. apply spec_items_join. apply (Htokr r Hr).
       - intros l Hl. unfold rowlines in Hl. apply in_map_iff in Hl. destruct Hl as [r [<- Hr]]. apply toks_g_row. apply (Htokr r Hr). }
     (* the frame *)
-    assert (frame (length hdr) [c_0] (map (fun r => map (pr_cell pr mdt) r) rows) =
+    assert (frame (length hdr) ns (map (fun r => map (pr_cell pr mdt) r) rows) =
             Ok (map (fun r => map Some (map (pr_cell pr mdt) r)) rows)) as ->.
     { unfold frame. destruct rows as [|r0 rest] eqn:Er; [discriminate|]. cbn [map].
       assert (length (map (pr_cell pr mdt) r0) = n) as Hl0 by (rewrite map_length; apply (Hrows r0); left; reflexivity).
@@ -2378,7 +2381,7 @@ Section CycleMain.
     (* conversion *)
     rewrite <- (map_map (fun r => map (pr_cell pr mdt) r) (fun s => map Some s)). rewrite mapM_map. rewrite mapM_map.
     rewrite (mapM_map_ok _ (fun r => map (fun nc => icell_of pr mdt (fst nc) (snd nc)) (combine hdr r))).
-    2:{ intros r Hr. destruct (Hrows r Hr) as [Hl [Hk _]]. apply (convert_row_cycle pr mdt hdr r Hl Hk). }
+    2:{ intros r Hr. destruct (Hrows r Hr) as [Hl [Hk _]]. apply (convert_row_cycle pr mdt ns hdr r Hl Hk). }
     cbn [bind].
     rewrite (columns_cycle pr mdt hdr rows (fun r Hr => proj1 (Hrows r Hr))).
     rewrite Gdate.
@@ -2393,16 +2396,25 @@ Section CycleMain.
       assert (list_eqb str_eqb hdr hdr = true) as ->; [|reflexivity]. clear. induction hdr as [|x l IH]; [reflexivity|]. cbn. rewrite str_eqb_refl. exact IH.
   Qed.
 
-  Lemma write_read_cycle_lemma hdr rows :
-    cycle_guard pr mdt hdr rows = true ->
-    exists t, read_model (cycle_input pr mdt hdr rows) = Ok t /\ table_same t hdr rows = true.
-  Proof.
-    intro G. unfold cycle_input. apply (write_read_cycle_opts _ []); [|exact G]. apply column_info_plain.
-    unfold cycle_guard in G. repeat (apply andb_true_iff in G; destruct G as [G ?]).
-    match goal with H : forallb name_ok hdr = true |- _ => revert H end. apply forallb_impl.
-    intros nm Hnm. unfold name_ok in Hnm. apply andb_true_iff in Hnm. tauto.
-  Qed.
 End CycleMain.
+
+Lemma write_read_cycle_opts pr mdt opts syn hdr rows :
+  column_info opts = Ok (mkCols hdr (map (fun _ => false) hdr) syn) ->
+  cycle_guard pr mdt hdr rows = true ->
+  exists t, read_model (cycle_input_opts pr opts mdt hdr rows) = Ok t /\ table_same t hdr rows = true.
+Proof.
+  intros Hci G. unfold cycle_input_opts. apply (write_read_cycle_full pr mdt [c_0] opts syn); auto.
+Qed.
+
+Lemma write_read_cycle_lemma pr mdt hdr rows :
+  cycle_guard pr mdt hdr rows = true ->
+  exists t, read_model (cycle_input pr mdt hdr rows) = Ok t /\ table_same t hdr rows = true.
+Proof.
+  intro G. unfold cycle_input. apply (write_read_cycle_opts pr mdt _ []); [|exact G]. apply column_info_plain.
+  unfold cycle_guard in G. repeat (apply andb_true_iff in G; destruct G as [G ?]).
+  match goal with H : forallb name_ok hdr = true |- _ => revert H end. apply forallb_impl.
+  intros nm Hnm. unfold name_ok in Hnm. apply andb_true_iff in Hnm. tauto.
+Qed.
 
 (* ---- update_input --------------------------------------------------------------------------------------- *)
 (* one option of $INPUT seen by column_info_from: an option that does not fail moves the state on *)
@@ -2508,4 +2520,31 @@ Proof.
     intros nm Hnm. unfold name_ok in Hnm. apply andb_true_iff in Hnm. tauto. }
   destruct (update_input_plain_lemma old ci hdr Hci Ha Hs Hp) as [syn E].
   apply (write_read_cycle_opts pr mdt _ syn hdr rows E G).
+Qed.
+
+(* ---- update_source: the filtered cycle ------------------------------------------------------------------ *)
+Lemma ign_char_set c tok : ign_char (set_ignchar c tok) = c.
+Proof.
+  unfold set_ignchar. destruct tok as [[|x tl]|]; try reflexivity.
+  match goal with |- context [if ?b then _ else _] => destruct b eqn:E end; [apply N.eqb_eq in E; exact E | reflexivity].
+Qed.
+
+Lemma write_read_cycle_filtered_lemma (pr : Q -> str) old ci ns mdt hdr rows :
+  column_info (i_options old) = Ok ci -> null_string (i_null old) = Ok ns ->
+  g_no_anon (i_options old) (length hdr) = true -> g_no_same_dropped (i_options old) hdr = true ->
+  cycle_guard pr mdt hdr rows = true ->
+  (exists t, read_model (written_input pr true true old ci mdt hdr rows) = Ok t /\ table_same t hdr rows = true) /\
+  i_ignore (written_input pr true true old ci mdt hdr rows) = [] /\
+  i_accept (written_input pr true true old ci mdt hdr rows) = [] /\
+  (forall renamed, written_input pr false renamed old ci mdt hdr rows = old).
+Proof.
+  intros Hci Hnull Ha Hs G. split; [|repeat split].
+  assert (forallb (fun nm => negb (is_dropword nm)) hdr = true) as Hp.
+  { pose proof G as G'. unfold cycle_guard in G'. repeat (apply andb_true_iff in G'; destruct G' as [G' ?]).
+    match goal with H : forallb name_ok hdr = true |- _ => revert H end. apply forallb_impl.
+    intros nm Hnm. unfold name_ok in Hnm. apply andb_true_iff in Hnm. tauto. }
+  destruct (update_input_plain_lemma (i_options old) ci hdr Hci Ha Hs Hp) as [syn E].
+  unfold written_input, update_data, data_of. cbn [d_ignchar d_null d_ignore d_accept].
+  apply (write_read_cycle_full pr mdt ns _ syn (set_ignchar (hdr_ignchar hdr) (i_ignchar old)) (i_null old) hdr rows E);
+    [apply ign_char_set | exact Hnull | exact G].
 Qed.
